@@ -112,10 +112,14 @@ async fn run_e2e(log: &Log, seed: u64, n_rounds: u64) {
         let mut hs = Vec::new();
         let logp: &'static Log = crate::events::log();
         for req in 1..=k {
-            let class = *r.pick(&["accept", "accept", "refuse", "noname"]);
+            let class = *r.pick(&["accept", "accept", "accept", "refuse", "noname", "einval", "netunreach"]);
             let via = *r.pick(&["client", "socks5"]);
             let tgt = if class == "accept" { Some(net::start_target("127.0.0.1:0", TargetMode::Echo).await) } else { None };
-            let addr = match &tgt { Some(t) => t.addr, None => net::refusing_addr() };
+            // destinations the server cannot connect to, failing in different ways: refused, invalid argument
+            // (link-local address without scope), network unreachable (broadcast / multicast)
+            let addr: std::net::SocketAddr = match (&tgt, class) { (Some(t), _) => t.addr, (None, "einval") => "[fe80::1]:80".parse().unwrap(),
+                (None, "netunreach") => (*r.pick(&["255.255.255.255:80", "224.0.0.1:80", "[ff02::1]:80"])).parse().unwrap(), _ => net::refusing_addr() };
+            let class = if class == "einval" || class == "netunreach" { "refuse" } else { class };
             ev!(log, "req", r: req, sid: 0, target: class, via: via);
             let (client, socks) = (client.clone(), socks.clone());
             let early: Vec<u8> = if r.chance(1, 2) { b"early-bytes".to_vec() } else { vec![] };
@@ -154,12 +158,12 @@ async fn run_e2e(log: &Log, seed: u64, n_rounds: u64) {
     }
 }
 
-/// (iii) thorough only: the 30 s SYNACK timeout of Client::create_proxy_stream against a scripted TLS server whose
-/// behaviour per request is encoded in the destination port: 1 never answers, 2 answers after the timeout,
-/// 3 answers ok then (duplicate) error, 4 answers error, 5 answers an unknown id only.
-async fn run_timeouts(log: &'static Log) {
+/// A scripted TLS server (authentication accepted, settings answered); its behaviour per request is
+/// encoded in the destination port: 1 never answers, 2 answers after the timeout, 3 answers ok then
+/// (duplicate) error, 4 answers error, 5 answers an unknown id only, 6 closes the connection without
+/// answering, 7 sends an Alert and closes.
+async fn start_scripted(log: &'static Log) -> String {
     use crate::rig::parse_frames;
-    log.reset(json!({"kind": "timeouts"}));
     let cfg = anytls_rs::util::tls::create_server_config().unwrap();
     let acceptor = tokio_rustls::TlsAcceptor::from(cfg);
     let listener = tokio::net::TcpListener::bind("127.0.0.1:0").await.unwrap();
@@ -188,7 +192,8 @@ async fn run_timeouts(log: &'static Log) {
                         if f.cmd == 2 && f.len == 7 {
                             let port = ((buf[f.off + 12] as u64) << 8) | buf[f.off + 13] as u64;
                             let sid = f.sid;
-                            ev!(log, "req", r: port, sid: base + sid, target: "scripted", via: "client");
+                            let rid = if port >= 6 { (conn as u64) * 10 + port } else { port };
+                            ev!(log, "req", r: rid, sid: base + sid, target: "scripted", via: "client");
                             let wr = wr.clone();
                             tokio::spawn(async move {
                                 let send = |v: &'static str, sid: u32, payload: &'static [u8]| { let wr = wr.clone(); async move { ev!(log, "answer", sid: base + sid, v: v); let _ = wr.lock().await.write_all(&frame_bytes(7, sid, payload)).await; let _ = wr.lock().await.flush().await; } };
@@ -197,6 +202,9 @@ async fn run_timeouts(log: &'static Log) {
                                     3 => { tokio::time::sleep(Duration::from_millis(800)).await; send("ok", sid, b"").await; tokio::time::sleep(Duration::from_millis(800)).await; send("err", sid, b"late duplicate").await; }
                                     4 => { tokio::time::sleep(Duration::from_millis(800)).await; send("err", sid, b"dial failed").await; }
                                     5 => { tokio::time::sleep(Duration::from_millis(800)).await; send("ok", sid + 1000, b"").await; }
+                                    6 => { tokio::time::sleep(Duration::from_millis(150)).await; ev!(log, "answer", sid: base + sid, v: "dead"); let _ = wr.lock().await.shutdown().await; }
+                                    7 => { tokio::time::sleep(Duration::from_millis(150)).await; ev!(log, "answer", sid: base + sid, v: "dead");
+                                           let _ = wr.lock().await.write_all(&frame_bytes(5, 0, b"going away")).await; let _ = wr.lock().await.shutdown().await; }
                                     _ => {}
                                 }
                             });
@@ -207,6 +215,40 @@ async fn run_timeouts(log: &'static Log) {
             });
         }
     });
+    addr
+}
+
+/// (ii') the session dies while an open is waiting for the server's verdict: through Client::create_proxy_stream
+/// and through the SOCKS5 front-end (the reply must be a failure)
+async fn run_death(log: &'static Log, rounds: u64) {
+    log.reset(json!({"kind": "death"}));
+    let addr = start_scripted(log).await;
+    let pool = SessionPoolConfig { check_interval: Duration::from_secs(300), idle_timeout: Duration::from_secs(600), min_idle_sessions: 1 };
+    let client = net::make_client(&addr, net::PASSWORD, PaddingFactory::default(), pool);
+    let socks = net::start_socks5(client.clone()).await;
+    let mut conn = 0u64;
+    for i in 0..rounds {
+        for port in [6u64, 7] {
+            conn += 1; // every request of this scenario kills its session: the next one dials connection conn + 1
+            let rid = conn * 10 + port;
+            if i % 2 == 0 {
+                let res = tokio::time::timeout(Duration::from_secs(10), client.create_proxy_stream(("127.0.0.1".to_string(), port as u16))).await;
+                let v = match &res { Ok(Ok(_)) => "ok", Ok(Err(e)) if e.to_string().contains("timeout") => "timeout", Ok(Err(_)) => "err", Err(_) => "none" };
+                if v != "none" { ev!(log, "done", r: rid, verdict: v, reply: "na"); }
+            } else {
+                let (code, _c) = socks_connect(&socks, format!("127.0.0.1:{}", port).parse().unwrap(), None, b"").await;
+                ev!(log, "done", r: rid, verdict: if code == 0 { "ok" } else { "err" }, reply: if code == 0 { "ok" } else { "fail" });
+            }
+            tokio::time::sleep(Duration::from_millis(50)).await;
+        }
+    }
+    ev!(log, "end", panics: 0);
+}
+
+/// (iii) thorough only: the 30 s SYNACK timeout of Client::create_proxy_stream against the scripted TLS server
+async fn run_timeouts(log: &'static Log) {
+    log.reset(json!({"kind": "timeouts"}));
+    let addr = start_scripted(log).await;
     let pool = SessionPoolConfig { check_interval: Duration::from_secs(300), idle_timeout: Duration::from_secs(600), min_idle_sessions: 1 };
     let client = net::make_client(&addr, net::PASSWORD, PaddingFactory::default(), pool);
     let mut hs = Vec::new();
@@ -245,7 +287,9 @@ pub fn run(args: &Args, log: &Log) -> Result<(), String> {
     if part == "all" || part == "e2e" {
         let rt = net::rt();
         rt.block_on(run_e2e(log, args.seed, if thorough { 60 } else { 8 }));
-        if thorough { let logp: &'static Log = crate::events::log(); rt.block_on(run_timeouts(logp)); }
+        let logp: &'static Log = crate::events::log();
+        rt.block_on(run_death(logp, if thorough { 8 } else { 2 }));
+        if thorough { rt.block_on(run_timeouts(logp)); }
         rt.shutdown_timeout(Duration::from_millis(200));
     }
     let _ = std::panic::take_hook();
